@@ -236,6 +236,9 @@ impl Prop for C05 {
     fn id(&self) -> &'static str {
         "C05"
     }
+    fn fuzz_target(&self) -> Option<&'static str> {
+        Some("tape")
+    }
     fn rule(&self) -> String {
         "tape-decoded expression DAGs over all operators (incl. div/rem, arrays with 1-bit index/data), widths biased to mix 1-bit and wider operands in every argument position, symbol names with and without quoting needs; commands DeclareConst / DefineConst / Assert / CheckSatAssuming (0-4 terms) / GetValue written by serialize_cmd and read by an independent SMT-LIB 2.6 front end: lexes, identifiers read back as the original names, command well-formed, term strictly well-sorted with 1-bit symbols declared Bool, value under all (<= 10 symbol bits) or 8 sampled assignments equals the reference evaluator's. Non-trivial: term with >= 1 Bool<->BitVec coercion site (1-bit operand or result of a bit-vector-only operator); distinct by hash of the written text.".into()
     }
